@@ -244,6 +244,19 @@ def family_pipeline(fam, progs, outdir, cap=20000, do_mc=True, workers=8, max_di
                         rep = vlib.run_directed(os.path.join(outdir, "progs.ndjson"), idx_of[pid], wit)
                         sig = vlib.divergence_signature(rep)
                         d = rep.get("divergence") or {}
+                        if sig == "followed-to-different-outcome":
+                            # every choice of the witness was offered and taken, yet some operation answered differently:
+                            # name the first such operation
+                            try:
+                                want = json.loads(o)["obs"]
+                                for ev in rep.get("events", []):
+                                    if ev.get("e") == "op" and ev.get("k") != "ret":
+                                        c, pc = ev["c"], ev["pc"]
+                                        if c < len(want) and pc - 1 < len(want[c]) and want[c][pc - 1] != ev["r"]:
+                                            sig = f"followed-to-different-outcome({ev['k']})"
+                                            break
+                            except Exception:
+                                pass
                         if d.get("kind") == "not-offered":
                             c, pc = d["want"][0], d["want"][1]
                             code = p["tasks"][c]
@@ -1029,7 +1042,7 @@ def run_property(pid, tier):
 
     # stages are independent (own output directory each): run a few side by side, report in table order
     from concurrent.futures import ThreadPoolExecutor
-    with ThreadPoolExecutor(max_workers=int(os.environ.get("VERIF_STAGE_JOBS", "3"))) as ex:
+    with ThreadPoolExecutor(max_workers=int(os.environ.get("VERIF_STAGE_JOBS", "4"))) as ex:
         results = list(ex.map(run_stage, spec["stages"]))
     for st, res in zip(spec["stages"], results):
         if res is None:
